@@ -31,6 +31,7 @@ SIZES = {'quick': dict(ds=12, targeted=2, library=8), 'thorough': dict(ds=400, t
 REQUIRED = {
     tier: {
         'file-sets-checked': 16,
+        'parameter-sets-whose-conductivity-knots-end-below-the-curve': 1,
         'datasets-with-more-than-512-rise-levels': 1,
         'library-sessions-with-files-before-and-after-the-recession-curve': 2,
         'control-file-counts-checked': 16,
@@ -174,6 +175,11 @@ def check_file_set(ctx, db, params, pfile, kind, what, case, tag):
     table = []
     for curve in (['rise'] if what == 'rise' else ['rise', 'recession']):
         o, err = run_cli_to_text(ctx, ['simulate', curve, db, pfile, '--observations'], '{}_{}_obs.yml'.format(tag, curve))
+        if err and curve == 'recession' and case.get('conductivity_knots_end_below_the_curve') and err.get('type') == 'NotImplementedError':
+            # levels above the highest conductivity knot: the simulator refuses the whole request
+            # (loudly: a calibration run stops), it does not describe another problem
+            rec.hit('recession-simulation-refused-above-the-highest-conductivity-knot')
+            return True
         if err:
             rec.violation('simulate-fails', {'exception': err, 'curve': curve}, wcase, 'pest')
             return False
@@ -345,6 +351,21 @@ def run_dataset(ctx, rng, index):
         pfile = curves_common.write_yaml(os.path.join(ctx.workdir, 'k{}_{}.yml'.format(index, kind)), params)
         for what in ('rise', 'curves'):
             check_file_set(ctx, db, params, pfile, kind, what, case, 'k{}_{}'.format(index, kind))
+    if index % 3 == 0:
+        # a spline transmissivity whose knots end below the top of the recession curve: either the
+        # simulation is refused, or files and simulator output still describe the same problem
+        (rtop,) = sqlite3.connect(db).execute('SELECT max(zeta_mm) FROM average_recession_time').fetchone()
+        short = random_params(rng, 'spline', zlo, zhi)
+        zk = [z for z in short['transmissivity']['zeta_knots_mm'] if z < rtop - 1.0]
+        if len(zk) < 2:
+            zk = [zlo - 60.0, rtop - 2.0]
+        short['transmissivity']['zeta_knots_mm'] = zk
+        short['transmissivity']['K_knots_km_d'] = short['transmissivity']['K_knots_km_d'][:len(zk)]
+        while len(short['transmissivity']['K_knots_km_d']) < len(zk):
+            short['transmissivity']['K_knots_km_d'].append(1.0)
+        sfile = curves_common.write_yaml(os.path.join(ctx.workdir, 'k{}_short.yml'.format(index)), short)
+        ctx.rec.hit('parameter-sets-whose-conductivity-knots-end-below-the-curve')
+        check_file_set(ctx, db, short, sfile, 'spline', 'curves', dict(case, conductivity_knots_end_below_the_curve=True), 'k{}_short'.format(index))
     if index % 2 == 0:
         # the user changes the grid step on the finished dataset and regenerates the files:
         # refused (nothing changes) or accepted -- either way the files must still agree
